@@ -134,7 +134,14 @@ func (n *bkNode) content(tbl string) ([]m.KV, uint64, bool) {
 }
 
 func bkKey(rng *rand.Rand, i int) []byte {
-	switch rng.Intn(6) {
+	switch rng.Intn(7) {
+	case 6:
+		// the very end of the keyspace: 1019..1024 bytes of 0xFF (the largest keys the API accepts)
+		k := make([]byte, 1019+rng.Intn(6))
+		for j := range k {
+			k[j] = 0xff
+		}
+		return k
 	case 0:
 		return []byte{byte(i), 0}
 	case 1:
